@@ -230,7 +230,33 @@ fn check_sequence(case: &Case, ev: &mut CaseEv) -> CheckResult {
     } else {
         spec
     };
-    let mut net = build(spec).map_err(|p| Fail::new(format!("valid layer sequence {:?} rejected: {}", spec, p)))?;
+    // one untrained sequence in three: one plain layer is first added with another activation and then switched to the
+    // one of the specification with Network::set_activation - the network must be the network of the specification
+    let switch = if !trained && case.xseed % 3 == 0 {
+        let plain: Vec<usize> = spec.layers.iter().enumerate().filter(|(_, l)| matches!(l, LayerSpec::Dense { .. } | LayerSpec::Conv { .. } | LayerSpec::Deconv { .. })).map(|(i, _)| i).collect();
+        if plain.is_empty() { None } else { Some(plain[(case.xseed as usize / 3) % plain.len()]) }
+    } else {
+        None
+    };
+    let mut net = match switch {
+        None => build(spec).map_err(|p| Fail::new(format!("valid layer sequence {:?} rejected: {}", spec, p)))?,
+        Some(i) => {
+            let mut other = spec.clone();
+            let want = match &mut other.layers[i] {
+                LayerSpec::Dense { act, .. } | LayerSpec::Conv { act, .. } | LayerSpec::Deconv { act, .. } => {
+                    let want = *act;
+                    let k = crate::refmodel::ELEMENTWISE.iter().position(|a| *a == want).unwrap_or(0);
+                    *act = crate::refmodel::ELEMENTWISE[(k + 1 + (case.wseed as usize % 4)) % 5];
+                    want
+                }
+                _ => unreachable!(),
+            };
+            let mut n = build(&other).map_err(|p| Fail::new(format!("valid layer sequence {:?} rejected: {}", other, p)))?;
+            catch(std::panic::AssertUnwindSafe(|| n.set_activation(i, lib_act(want)))).map_err(|p| Fail::new(format!("set_activation({}, {:?}) panicked: {}", i, want, p)))?;
+            ev.class("sequence:an activation set afterwards with set_activation");
+            n
+        }
+    };
     let mut ps = seeded_params(&net, spec, case.wseed, case.wmode, 1.0);
     apply_params(&mut net, &ps);
     let n_in = count(&spec.input);
@@ -337,7 +363,7 @@ impl Prop for C02 {
         t.pick(300_000, 20_000_000)
     }
     fn rule(&self) -> String {
-        "tape-decoded cases: (3/4) one layer of a chosen kind (dense incl. soft-max, convolution, deconvolution, max-pool) over the configuration lattice channels 1-3, height/width 1-8 (thorough 1-12) non-square, filters 1-3 (1/6 of the convolutions: 12-24), dense inputs 1-12 (1/6: 60-300), kernel 1-3 (5), stride 1-3 (4), padding 0-2, dilation 1-2 (3), constructed so that the effective kernel fits; one spatial case in 40 on maps of 13-32 pixels a side with kernels up to 7 and pooling windows up to the whole map (up to 1024 elements); distinct random taps and inputs at scales 1e-20/1e-9/0.01/1/30 (dense also 300); each spatial layer is fed the c x h x w tensor and its flattening. (1/4) sequences of 2-5 fitting layers incl. feedback blocks without skips and flat<->spatial transitions; one in five of them is compared after a short early-stopped learn() run with dropout layers (trained weights read back through the hooks). Oracles: f64 defining operators with a forward-error bound 4(n+1)eps*sum|terms| (max-pool exact), bitwise equality of both input representations, bitwise equality of Network::forward/predict with the fold of the library's own single-layer forwards, final output vs f64 reference network (2e-4 relative to the output scale, skipped near kinks/ties). Non-trivial: spatial layer or sequence. Distinct = full specification.".into()
+        "tape-decoded cases: (3/4) one layer of a chosen kind (dense incl. soft-max, convolution, deconvolution, max-pool) over the configuration lattice channels 1-3, height/width 1-8 (thorough 1-12) non-square, filters 1-3 (1/6 of the convolutions: 12-24), dense inputs 1-12 (1/6: 60-300), kernel 1-3 (5), stride 1-3 (4), padding 0-2, dilation 1-2 (3), constructed so that the effective kernel fits; one spatial case in 40 on maps of 13-32 pixels a side with kernels up to 7 and pooling windows up to the whole map (up to 1024 elements); distinct random taps and inputs at scales 1e-20/1e-9/0.01/1/30 (dense also 300); each spatial layer is fed the c x h x w tensor and its flattening. (1/4) sequences of 2-5 fitting layers incl. feedback blocks without skips and flat<->spatial transitions; one in five of them is compared after a short early-stopped learn() run with dropout layers (trained weights read back through the hooks), and one untrained sequence in three has one plain layer added with another activation and then switched to the specified one with Network::set_activation. Oracles: f64 defining operators with a forward-error bound 4(n+1)eps*sum|terms| (max-pool exact), bitwise equality of both input representations, bitwise equality of Network::forward/predict with the fold of the library's own single-layer forwards, final output vs f64 reference network (2e-4 relative to the output scale, skipped near kinks/ties). Non-trivial: spatial layer or sequence. Distinct = full specification.".into()
     }
     fn run_case(&self, tape: &[u32], ev: &mut CaseEv) -> CheckResult {
         let c = decode(tape, self.0);
